@@ -13,6 +13,7 @@ struct Server {
     std::map<int, size_t> consumed;       // per TCP connection: bytes of the client stream already split into PDUs
     bool closeAfterReply = false;         // orderly close once the reply is queued
     long truncateReplyAt = -1;            // deliver only this many bytes of the reply, then close
+    bool stallAfterTruncation = false;    // ... or stay silent with the connection open instead of closing it
     bool resetInsteadOfReply = false;
     long httpCode = 200; int curlCode = 0;
     std::vector<size_t> httpChunks;
@@ -23,7 +24,7 @@ struct Server {
                 Bytes pdu(c.fromClient.begin() + off, c.fromClient.begin() + off + tot); off += tot; requests.push_back(pdu); requestConn.push_back(c.index);
                 if (resetInsteadOfReply) { c.peerReset = true; continue; }
                 Bytes r = respond ? respond(pdu, c.index) : Bytes();
-                if (truncateReplyAt >= 0 && (size_t)truncateReplyAt < r.size()) { r.resize((size_t)truncateReplyAt); c.toClient.insert(c.toClient.end(), r.begin(), r.end()); c.peerClosed = true; continue; }
+                if (truncateReplyAt >= 0 && (size_t)truncateReplyAt < r.size()) { r.resize((size_t)truncateReplyAt); c.toClient.insert(c.toClient.end(), r.begin(), r.end()); if (!stallAfterTruncation) c.peerClosed = true; continue; }
                 c.toClient.insert(c.toClient.end(), r.begin(), r.end()); if (closeAfterReply) c.peerClosed = true; }
         };
         sim::http().onRequest = [this](const sim::HttpRequest &rq) { sim::HttpReply rp; requests.push_back(rq.body); requestConn.push_back(-1); rp.curlCode = curlCode; rp.httpCode = httpCode; rp.chunks = httpChunks;
